@@ -49,6 +49,15 @@ pub enum Tx {
     NextRound,
     CreateToken,
     ProofDrop,
+    // structure-changing transactions (C05)
+    NewAccount,
+    DepositToVirtual,
+    SecurifyB,
+    CreateIdentity,
+    CreateAccessController,
+    LockerStore,
+    PublishWat,
+    CreateTwoPool,
 }
 
 pub const STD_MENU: &[Tx] = &[
@@ -77,6 +86,18 @@ pub const STD_MENU: &[Tx] = &[
     Tx::NextRound,
     Tx::CreateToken,
     Tx::ProofDrop,
+];
+
+/// Structure-changing menu (new global components, owned objects inside KV entries, packages).
+pub const STRUCT_MENU: &[Tx] = &[
+    Tx::NewAccount,
+    Tx::DepositToVirtual,
+    Tx::SecurifyB,
+    Tx::CreateIdentity,
+    Tx::CreateAccessController,
+    Tx::LockerStore,
+    Tx::PublishWat,
+    Tx::CreateTwoPool,
 ];
 
 pub enum Built {
@@ -195,6 +216,61 @@ pub fn build_tx<E: NativeVmExtension>(sim: &mut Sim<E>, w: &World, x: &Extras, t
         ),
         Tx::NextRound => Built::Round,
         Tx::CreateToken => Built::Manifest(mb().new_token_fixed(OwnerRole::None, metadata!(), dec!(100)).try_deposit_entire_worktop_or_abort(a, None).build(), sa),
+        Tx::NewAccount => Built::Manifest(mb().new_account().try_deposit_entire_worktop_or_abort(a, None).build(), vec![]),
+        Tx::DepositToVirtual => {
+            let pk = Secp256k1PrivateKey::from_u64(777).unwrap().public_key();
+            let v = ComponentAddress::preallocated_account_from_public_key(&pk);
+            Built::Manifest(mb().withdraw_from_account(a, w.f18, dec!(1)).try_deposit_entire_worktop_or_abort(v, None).build(), sa)
+        }
+        Tx::SecurifyB => Built::Manifest(mb().call_method(b, "securify", manifest_args!()).try_deposit_entire_worktop_or_abort(a, None).build(), sb),
+        Tx::CreateIdentity => Built::Manifest(mb().create_identity().try_deposit_entire_worktop_or_abort(a, None).build(), vec![]),
+        Tx::CreateAccessController => Built::Manifest(
+            mb().withdraw_from_account(a, w.f0, dec!(1))
+                .take_all_from_worktop(w.f0, "asset")
+                .create_access_controller("asset", rule!(allow_all), rule!(allow_all), rule!(allow_all), Some(1))
+                .build(),
+            sa,
+        ),
+        Tx::LockerStore => Built::Manifest(
+            mb().allocate_global_address(LOCKER_PACKAGE, ACCOUNT_LOCKER_BLUEPRINT, "locker_res", "locker")
+                .call_function_with_name_lookup(LOCKER_PACKAGE, ACCOUNT_LOCKER_BLUEPRINT, ACCOUNT_LOCKER_INSTANTIATE_IDENT, |l| {
+                    (
+                        OwnerRole::None,
+                        rule!(allow_all),
+                        rule!(deny_all),
+                        rule!(allow_all),
+                        rule!(deny_all),
+                        Some(l.address_reservation("locker_res")),
+                    )
+                })
+                .withdraw_from_account(a, w.f18, dec!(1))
+                .take_all_from_worktop(w.f18, "gift")
+                .call_method_with_name_lookup("locker", ACCOUNT_LOCKER_STORE_IDENT, |l| (b, l.bucket("gift"), false))
+                .build(),
+            sa,
+        ),
+        Tx::PublishWat => {
+            let code = wat2wasm(MINI_WAT);
+            Built::Manifest(
+                mb().publish_package_advanced(None, code, single_function_package_definition("Test", "f"), metadata_init!(), OwnerRole::None).build(),
+                vec![],
+            )
+        }
+        Tx::CreateTwoPool => Built::Manifest(
+            mb().call_function(
+                POOL_PACKAGE,
+                TWO_RESOURCE_POOL_BLUEPRINT,
+                TWO_RESOURCE_POOL_INSTANTIATE_IDENT,
+                TwoResourcePoolInstantiateManifestInput {
+                    resource_addresses: (w.f18.into(), w.f2.into()),
+                    pool_manager_rule: rule!(allow_all).into(),
+                    owner_role: OwnerRole::None.into(),
+                    address_reservation: None,
+                },
+            )
+            .build(),
+            vec![],
+        ),
         Tx::ProofDrop => Built::Manifest(mb().create_proof_from_account_of_amount(a, w.f18, dec!(1)).drop_all_proofs().build(), sa),
     }
 }
@@ -209,3 +285,19 @@ pub fn run_tx<E: NativeVmExtension>(sim: &mut Sim<E>, w: &World, x: &Extras, tx:
         }),
     }
 }
+
+/// Smallest package accepted by the WASM validator: one exported function `Test_f` returning an empty tuple buffer.
+pub const MINI_WAT: &str = r#"
+(module
+  (func $Test_f (param $0 i64) (result i64)
+    ;; encode the SBOR unit value `()` = 5c 21 00 at address 0 and return slice (ptr=0,len=3)
+    (i32.store8 (i32.const 0) (i32.const 92))
+    (i32.store8 (i32.const 1) (i32.const 33))
+    (i32.store8 (i32.const 2) (i32.const 0))
+    (i64.const 3)
+  )
+  (memory $0 1)
+  (export "memory" (memory $0))
+  (export "Test_f" (func $Test_f))
+)
+"#;
